@@ -112,6 +112,11 @@ def get_col_name(keypath: tp.Sequence[Any]) -> str:
 
 def to_nnx_var(col: str, x: meta.AxisMetadata | Any) -> variablelib.Variable:
   """Convert a Linen variable to an NNX variable."""
+  if isinstance(x, NNXMeta):
+    # the box knows its Variable type: link the collection name to it first (a
+    # process that applies restored variables without having run init has not
+    # registered the type yet and would get a synthetic one from the name).
+    variablelib.variable_name_from_type(x.var_type, allow_register=True)
   vtype = variablelib.variable_type_from_name(col, allow_register=True)
   if isinstance(x, NNXMeta):
     assert vtype == x.var_type, f'Type stored in NNXMeta {x.var_type} != type inferred from collection name {vtype}'
